@@ -71,7 +71,7 @@ Section Main.
       /\ forall k pevs, reads e pevs -> Parser.parse_n k cfg c u (Some cl) pevs = Parser.Ok o [].
   Proof.
     intros n cl o Hwf Hfit. pose proof (wf_model_wfr cl Hwf) as Hw.
-    exists (bflat (gobj c u ign n None o)), (eobj n None o).
+    exists (bflat (add_nil_g (cnil u o) (gobj c u ign n None o))), (eobj n None o).
     split; [|split].
     - assert (Ho : exists fs, o = VObj cl fs).
       { destruct n; [discriminate|]. destruct (fits_inv c u ok py_isspace n cl o Hfit) as [fs [_ [-> _]]]. eauto. }
@@ -85,7 +85,7 @@ Section Main.
 
   Lemma generate_ok : forall n cl o,
     wf_model u cl = true -> fits n cl o = true ->
-    EventGen.generate ign c u o = EventGen.Ok (bflat (gobj c u ign n None o)).
+    EventGen.generate ign c u o = EventGen.Ok (bflat (add_nil_g (cnil u o) (gobj c u ign n None o))).
   Proof.
     intros n cl o Hwf Hfit. pose proof (wf_model_wfr cl Hwf) as Hw.
     assert (Ho : exists fs, o = VObj cl fs).
@@ -105,7 +105,7 @@ Section Main.
       /\ Parser.parse cfg c u (Some cl) (pump (itree_of_events (map (of_wevent c) evs))) = Parser.Ok o [].
   Proof.
     intros n cl o Hwf Hfit Hnq Hex. pose proof (wf_model_wfr cl Hwf) as Hw.
-    exists (bflat (gobj c u ign n None o)). split; [apply (generate_ok n cl o Hwf Hfit)|].
+    exists (bflat (add_nil_g (cnil u o) (gobj c u ign n None o))). split; [apply (generate_ok n cl o Hwf Hfit)|].
     rewrite (events_mean c u ok py_isspace ign n cl o Hw Hfit). cbn [pump]. unfold Parser.parse.
     apply (parse_reads n _ cl o _ Hwf Hfit). apply reads_pump. apply (plain_obj c u ok ign n cl o None Hw Hfit Hnq Hex).
   Qed.
